@@ -257,3 +257,12 @@ Proof. exact bb_stream_pow2. Qed.
 Theorem C14_bb_pow2_binary64 : forall k p mu s xs xs', bb_new FOps p mu = Ok s -> Forall2 (scaled k) xs xs' -> bb_run_ok k s xs ->
   Forall2 (Forall2 (scaled k)) (res_outs (bb_next FOps) s xs) (res_outs (bb_next FOps) s xs').
 Proof. exact bb_pow2_covariant. Qed.
+
+(* ... and for whole streams of MACD: line, signal and histogram (three EMA updates and two correctly rounded subtractions per step) *)
+From TA Require Import Proofs.FloatScaleMacd.
+Theorem C14_macd_stream_pow2_binary64 : forall k xs xs' s s', rel_macd k s s' -> Forall2 (scaled k) xs xs' -> macd_run_ok k s xs ->
+  Forall2 (Forall2 (scaled k)) (macd_outs FOps s xs) (macd_outs FOps s' xs').
+Proof. exact macd_stream_pow2. Qed.
+Theorem C14_macd_pow2_binary64 : forall k pf ps pg s xs xs', macd_new FOps pf ps pg = Ok s -> Forall2 (scaled k) xs xs' -> macd_run_ok k s xs ->
+  Forall2 (Forall2 (scaled k)) (macd_outs FOps s xs) (macd_outs FOps s xs').
+Proof. exact macd_pow2_covariant. Qed.
